@@ -24,8 +24,8 @@ def run(ctx):
                    label="range contract <=> quantified sentences (7-bit layouts)")
     binary = ctx.go_build("c07")
     tf = ctx.path("codec.ndjson")
-    out = ctx.harness(binary, ["-out", tf, "-seed", ctx.seed, "-nts", ctx.q(40, 400), "-raw", ctx.q(60, 600),
-                               "-pairs", ctx.q(150, 1500), "-ranges", ctx.q(120, 1200), "-epochs", ctx.q(3, 8)],
+    out = ctx.harness(binary, ["-out", tf, "-seed", ctx.seed, "-nts", ctx.q(40, 300), "-raw", ctx.q(60, 400),
+                               "-pairs", ctx.q(150, 1200), "-ranges", ctx.q(120, 900), "-epochs", ctx.q(3, 8)],
                       traces=[tf])
     traces = ctx.load_traces(tf)
     rj = ctx.validate(fam, "SnowCodec_Trace", "SnowCodec_Trace.cfg", traces, label="codec", chunk=60000,
